@@ -106,11 +106,29 @@ func neutral(c *mon.Ctx, tag byte, body []byte) {
 	}
 }
 
+// lang draws a 3-byte language code: usual lower-case codes, the same codes in other spellings (upper
+// case, mixed case, padded with space / NUL / '@'), and arbitrary bytes; a decoder must return its own bytes.
 func lang(r *gen.Rand) string {
+	base := []string{"eng", "spa", "fra", "deu", "zho", "und"}[r.Intn(6)]
 	if r.Chance(3) {
-		return []string{"eng", "spa", "fra", "deu", "zho", "und"}[r.Intn(6)]
+		base = string([]byte{byte('a' + r.Intn(26)), byte('a' + r.Intn(26)), byte('a' + r.Intn(26))})
 	}
-	return string([]byte{byte('a' + r.Intn(26)), byte('a' + r.Intn(26)), byte('a' + r.Intn(26))})
+	b := []byte(base)
+	switch r.Intn(8) {
+	case 0:
+		for i := range b {
+			b[i] -= 32 // upper case
+		}
+	case 1:
+		b[r.Intn(3)] -= 32 // mixed case
+	case 2:
+		b[2] = r.PickByte([]byte{' ', 0, '@', '`'})
+	case 3:
+		b[r.Intn(3)] ^= byte(0x20 << uint(r.Intn(3))) // differs from a usual code only in the top three bits of a byte
+	case 4:
+		r.Fill(b)
+	}
+	return string(b)
 }
 
 // own checks each decoder on a reference-built body of its own tag.
